@@ -202,6 +202,8 @@ func (e *racEnv) c(x Expr) string {
 
 func (e *racEnv) eval(x Expr) gval {
 	switch x := x.(type) {
+	case *EStr:
+		return gval{s: fmt.Sprintf("racStr(%q)", x.S), k: gInt, elem: nil}
 	case *ELit:
 		n, _ := new(big.Int).SetString(x.V, 0)
 		return gval{s: fmt.Sprintf("racBig(%q)", n.String()), k: gInt, elem: nil}
